@@ -239,6 +239,9 @@ Step ==
      CASE r.e = "Reset" -> Reset(r)
        [] r.e = "Op" -> OpStep(r)
        [] r.e = "End" -> EndStep(r)
+       [] r.e = "Crash" ->      \* the process running the code under test died (signal): memory safety is part of C04
+            /\ TRUE = Viol("C04|" \o r.op \o "|crash", r.signal)
+            /\ UNCHANGED <<tr, ob, fp, sp, src, cont, broken, dirt, dirty0, modBy, dirtyBy>>
        [] OTHER -> /\ TRUE = Viol("C04|event|unknown", r) /\ UNCHANGED <<tr, ob, fp, sp, src, cont, broken, dirt, dirty0, modBy, dirtyBy>>
   /\ l' = l + 1
 Done == l = Len(Rec) + 1 /\ PrintT(<<"ACCEPTED", Len(Rec)>>) /\ l' = l + 1
